@@ -1387,6 +1387,114 @@ func ruleC20Adapt(r *Run) {
 	r.Check(rule, "(rux.HandlerFunc).ServeHTTP", hs.Pos(), okHS, "a HandlerFunc used as http.Handler runs on an initialised context")
 }
 
+// C20-WRAP: WrapHTTPHandlers folds its list so that the first listed wrapper is outermost,
+// and never writes to the caller's slice.
+func ruleC20Wrap(r *Run) {
+	w := r.W
+	rule := "C20-WRAP"
+	r.Floor(rule, 2)
+	f := w.Fn("rux", "Router.WrapHTTPHandlers")
+	if !f.Signature.Variadic() {
+		r.Undecided(rule, FuncName(f), f.Pos(), "no variadic wrapper list")
+		return
+	}
+	list := f.Params[len(f.Params)-1]
+	// (1) the caller's slice is never written (here or in callees that receive it)
+	writes := 0
+	var scan func(g *ssa.Function, prm ssa.Value, depth int)
+	scan = func(g *ssa.Function, prm ssa.Value, depth int) {
+		if depth > 3 {
+			return
+		}
+		eachInstr(g, func(in ssa.Instruction) {
+			switch x := in.(type) {
+			case *ssa.Store:
+				if ia, ok := x.Addr.(*ssa.IndexAddr); ok && ia.X == prm {
+					writes++
+					r.Check(rule, fmt.Sprintf("%s:writes the caller's wrapper list#%d", FuncName(g), writes), w.InstrPos(in), false,
+						"an element of the variadic wrapper list is overwritten: with WrapHTTPHandlers(list...) the caller's slice is modified, the next wrap with the same list nests the wrappers in another order")
+				}
+			case *ssa.Call:
+				if isBuiltin(x, "copy") && x.Call.Args[0] == prm {
+					writes++
+					r.Check(rule, fmt.Sprintf("%s:writes the caller's wrapper list#%d", FuncName(g), writes), w.InstrPos(in), false, "copy into the caller's wrapper list")
+				}
+				if n := calleeName(x); strings.HasPrefix(n, "sort.") || strings.HasPrefix(n, "slices.Reverse") || strings.HasPrefix(n, "slices.Sort") {
+					for _, a := range x.Call.Args {
+						if a == prm {
+							writes++
+							r.Check(rule, fmt.Sprintf("%s:writes the caller's wrapper list#%d", FuncName(g), writes), w.InstrPos(in), false, n+" reorders the caller's wrapper list in place")
+						}
+					}
+				}
+				if sc := staticCallee(x); sc != nil && w.InModule(sc) {
+					for i, a := range x.Call.Args {
+						if a == prm && i < len(sc.Params) {
+							scan(sc, sc.Params[i], depth+1)
+						}
+					}
+				}
+			}
+		})
+	}
+	scan(f, list, 0)
+	r.Check(rule, FuncName(f)+":caller's list is read-only", f.Pos(), writes == 0, "the variadic wrapper list is only read")
+	// (2) fold shape
+	desc, asc, other := 0, 0, 0
+	eachInstr(f, func(in ssa.Instruction) {
+		c, ok := in.(*ssa.Call)
+		if !ok || c.Call.IsInvoke() || staticCallee(c) != nil {
+			return
+		}
+		ld, ok := c.Call.Value.(*ssa.UnOp)
+		if !ok {
+			return
+		}
+		ia, ok := ld.X.(*ssa.IndexAddr)
+		if !ok || ia.X != ssa.Value(list) {
+			return
+		}
+		idx := ia.Index
+		isLenList := func(v ssa.Value) bool {
+			cc, ok := v.(*ssa.Call)
+			return ok && isBuiltin(cc, "len") && cc.Call.Args[0] == ssa.Value(list)
+		}
+		switch {
+		case isRangeIndex(idx):
+			asc++
+		default:
+			// (len(list) - i) - 1  or  len(list) - 1 - i  or  len(list) - (i + 1)
+			ok := false
+			if b, isB := idx.(*ssa.BinOp); isB && b.Op == token.SUB {
+				if one, okc := constInt(b.Y); okc && one == 1 {
+					if b2, isB2 := b.X.(*ssa.BinOp); isB2 && b2.Op == token.SUB && isLenList(b2.X) && isRangeIndex(b2.Y) {
+						ok = true
+					}
+				}
+				if b2, isB2 := b.X.(*ssa.BinOp); isB2 && b2.Op == token.SUB && isRangeIndex(b.Y) {
+					if one, okc := constInt(b2.Y); okc && one == 1 && isLenList(b2.X) {
+						ok = true
+					}
+				}
+			}
+			if ok {
+				desc++
+			} else {
+				other++
+			}
+		}
+	})
+	switch {
+	case desc > 0 && asc == 0 && other == 0:
+		r.Check(rule, FuncName(f)+":fold order", f.Pos(), true, "wrappers are applied from the last listed to the first (index len-1-i over an ascending i), each to the accumulated handler: the first listed wrapper is outermost for every list length")
+	case asc > 0 && writes == 0:
+		r.Check(rule, FuncName(f)+":fold order", f.Pos(), false, "wrappers are applied in ascending list order to the accumulated handler: the first listed wrapper ends up innermost")
+	default:
+		r.Note("C20-WRAP: fold shape of WrapHTTPHandlers not recognised (%d unrecognised index expressions); order not decided, only the read-only clause is", other)
+		r.Exists(rule, FuncName(f)+":fold order", f.Pos(), true, "fold shape not recognised: order not decided (see notes)")
+	}
+}
+
 func init() {
 	register(&property{
 		Meta: propertyMeta{
@@ -1404,7 +1512,7 @@ func init() {
 			NotDecided:  []string{"that the body decodes back to the value; JSONP framing bytes", "which status wins when a helper is called after the commit (C08)"},
 			Assumptions: []string{"goutil httpctype constants are the documented content types"},
 		},
-		Rules: []ruleFn{{"C19-STATUS", ruleC19Status}, {"C19-CTYPE", ruleC19CType}, {"C19-NOOVERRIDE", ruleC19NoOverride}, {"C19-ARMS", ruleC19Arms}, {"C19-ERR", ruleC19Err}, {"C03-POOL", ruleC03Pool}},
+		Rules: []ruleFn{{"C19-STATUS", ruleC19Status}, {"C19-CTYPE", ruleC19CType}, {"C19-NOOVERRIDE", ruleC19NoOverride}, {"C19-ARMS", ruleC19Arms}, {"C19-ERR", ruleC19Err}, {"C03-POOL", ruleC03Pool}, {"C08-LATCH", ruleC08Latch}, {"C08-PRECOMMIT", ruleC08Precommit}},
 	})
 	register(&property{
 		Meta: propertyMeta{
@@ -1413,6 +1521,6 @@ func init() {
 			NotDecided:  []string{"Request.BasicAuth header parsing (trusted)", "WrapHTTPHandlers' 'first listed is outermost' for lists of any length (index arithmetic over a run-time length)"},
 			Assumptions: []string{"net/http.Request.BasicAuth reports ok only for well-formed Basic credentials"},
 		},
-		Rules: []ruleFn{{"C20-AUTH", ruleC20Auth}, {"C20-OVERRIDE", ruleC20Override}, {"C20-ADAPT", ruleC20Adapt}, {"C05-SENTINEL", ruleC05Sentinel}, {"C08-FACADE", ruleC08Facade}},
+		Rules: []ruleFn{{"C20-AUTH", ruleC20Auth}, {"C20-OVERRIDE", ruleC20Override}, {"C20-ADAPT", ruleC20Adapt}, {"C20-WRAP", ruleC20Wrap}, {"C05-SENTINEL", ruleC05Sentinel}, {"C08-FACADE", ruleC08Facade}},
 	})
 }
